@@ -43,6 +43,8 @@ def spec_strategy():
         a1, a2, a1,
         val.map(lambda v: {'kind': 'float', 'v': v}),
         st.integers(-5, 40).map(lambda v: {'kind': 'int', 'v': v}),
+        # integer-typed arrays (np.arange(1, 5)): numeric input like any other
+        st.lists(st.integers(-5, 40), min_size=1, max_size=6).map(lambda v: {'kind': 'iarray', 'v': v}),
         val.map(lambda v: {'kind': 'np', 'v': v}))
     return st.fixed_dictionaries({
         # characteristic values with few digits and with all 17 significant digits of a double (a value that went through a
@@ -85,6 +87,8 @@ def build_arg(a):
         return int(a['v'])
     if a['kind'] == 'np':
         return np.float64(a['v'])
+    if a['kind'] == 'iarray':
+        return np.asarray(a['v'], dtype=np.int64)
     if a['kind'] == 'array1':
         return np.asarray(a['v'], dtype=float)
     return np.asarray(a['v'], dtype=float).reshape(a['shape'])
